@@ -12,7 +12,7 @@ mkdir -p "$scratch/clean" "$scratch/mut"
 git -C /repo archive HEAD | tar -x -C "$scratch/clean"
 git -C /repo archive HEAD | tar -x -C "$scratch/mut"
 if ! (cd "$scratch/mut" && git apply --unsafe-paths --directory="$scratch/mut" "$diff" 2>/dev/null || patch -p1 --quiet < "$diff"); then echo "RESULT $sid: PATCH-DOES-NOT-APPLY"; exit 3; fi
-tests=$(cd "$scratch/mut" && /venv/bin/python -B -m pytest -q -p no:cacheprovider --continue-on-collection-errors 2>&1 | tail -1)
+tests=$(cd "$scratch/mut" && timeout 300 /venv/bin/python -B -m pytest -q -p no:cacheprovider --continue-on-collection-errors 2>&1 | tail -1)
 echo "tests with change: $tests"
 /venv/bin/python -B "$demo" "$scratch/clean" >/dev/null 2>&1; d0=$?
 /venv/bin/python -B "$demo" "$scratch/mut" >/dev/null 2>&1; d1=$?
